@@ -48,6 +48,9 @@ SITE_MODEL = "c09-model"
 SYS = {"q1": ("qubit", 1), "t1": ("qutrit", 1), "q2": ("qubit", 2)}
 MODE = {"qst": "state", "povmt": "povm", "qpt": "gate", "qmpt": "mprocess"}
 KAPPA_BAND = 1e8          # above this the float implementation is not compared (counted as trivial)
+TOL_REL = 1e-11           # relative tolerance per unit of exact kappa = |G|_inf |M|_inf.  Calibrated: over 1518 datasets of the thorough
+                          # tomo stream the largest observed |x_impl - x_exact| / (kappa (1+|x|)) is 2.4e-14 (weak testers, cancellation
+                          # in f - b by a factor 2000); everything else is below 1e-15.  A float32 round trip of the data (6e-8) is visible.
 
 T_STATES = {
     "q1": {"complete": ["x0", "y0", "z0", "z1"], "over": ["x0", "x1", "y0", "y1", "z0", "z1", "a"]},
@@ -56,7 +59,7 @@ T_STATES = {
     "q2": {"complete": ["x0", "y0", "z0", "z1"], "over": ["x0", "y0", "z0", "z1", "a"]},
 }
 T_POVMS = {
-    "q1": {"complete": ["x", "y", "z"], "over": ["x", "y", "z", "x", "z"]},
+    "q1": {"complete": ["x", "y", "z"], "over": ["x", "y", "z", "x", "z"], "odd": ["x", "y", "z"]},
     "t1": {"complete": ["01x3", "01y3", "z3", "12x3", "12y3", "02x3", "02y3"],
            "over": ["01x3", "01y3", "z3", "12x3", "12y3", "02x3", "02y3", "z3", "01x3"],
            "mixed": ["01x3", "01y3", "z3", "12x3", "12y3", "02x3", "02y3", "z2"]},
@@ -135,6 +138,15 @@ def _trine_povm(c_sys, phi):
     return Povm(c_sys, vecs, is_physicality_required=False)
 
 
+def _odd_povms(c_sys):
+    """a 1-outcome POVM (identity) and a 4-outcome POVM of a qubit: outcome counts 1 and 4 != dimension 2"""
+    from quara.objects.povm import Povm
+    e0 = np.array([np.sqrt(2), 0.0, 0.0, 0.0]); ex = np.array([0.0, 1.0, 0.0, 0.0]); ez = np.array([0.0, 0.0, 0.0, 1.0])
+    ident = Povm(c_sys, [e0], is_physicality_required=False)
+    four = Povm(c_sys, [0.25 * e0 + 0.25 * ex, 0.25 * e0 - 0.25 * ex, 0.25 * e0 + 0.125 * ez, 0.25 * e0 - 0.125 * ez], is_physicality_required=False)
+    return ident, four
+
+
 def build_tomo(case):
     from quara.protocol.qtomography.standard.standard_qst import StandardQst
     from quara.protocol.qtomography.standard.standard_povmt import StandardPovmt
@@ -148,6 +160,9 @@ def build_tomo(case):
         povms = [_readout_flip(p, c, float(case["pflip"]) * (1 + (i % 3)) / 3.0) for i, p in enumerate(povms)]
     if case.get("trine") is not None:
         povms = povms + [_trine_povm(c, float(case["trine"]))]
+    if case.get("odd_povms"):
+        ident, four = _odd_povms(c)
+        povms = povms[:1] + [ident] + povms[1:2] + [four] + povms[2:]
     if kind == "qst":
         sc = "all" if sched is None else [[("state", 0), ("povm", i)] for i in sched]
         qt = StandardQst(povms, on_para_eq_constraint=para, schedules=sc)
@@ -383,7 +398,7 @@ def chk_tomo(ctx, case):
         return
     if unequal:
         ctx.count(sub, key=(lab0, "unequal", case["seed"]), nontrivial=True, label=lab0 + ":unequal-outcome-counts-estimated")
-    tol = 1e-9 * kappa
+    tol = TOL_REL * kappa
     xs_impl = [np.asarray(v, dtype=float) for v in ires.estimated_var_sequence]
     if len(xs_impl) != len(data):
         ctx.violation(sub, SITE_EST, "sequence-length", "%d datasets, %d estimates" % (len(data), len(xs_impl)), case)
@@ -431,6 +446,25 @@ def chk_tomo(ctx, case):
             if s2 != "ok" or maxabs(r2_.estimated_var, r1.estimated_var) > 1e-13 * scale:
                 ctx.violation(sub, SITE_EST, "depends-on-sample-counts", "%s %s: counts %s -> %s change the estimate by %s" % (lab0, d["label"], counts[i], alt, "raise" if s2 != "ok" else maxabs(r2_.estimated_var, r1.estimated_var)), sc)
                 break
+        # (e2) the same numbers handed over in other array representations (strided / reversed-stride views, read-only
+        #      buffers, float32 when every entry is exactly representable, a tuple of pairs): same estimate
+        if i < 3:
+            def _variants(x):
+                big = np.zeros(2 * len(x) + 1); big[1::2] = x
+                ro = x.copy(); ro.setflags(write=False)
+                out = [("strided-view", big[1::2]), ("reversed-stride-view", x[::-1].copy()[::-1]), ("read-only", ro)]
+                if np.array_equal(x.astype(np.float32).astype(np.float64), x):
+                    out.append(("float32", x.astype(np.float32)))
+                return out
+            names = [nm for nm, _ in _variants(d["dists"][0])]
+            for nm in names:
+                alt_ds = tuple((cn, dict(_variants(x)).get(nm, x)) for cn, x in zip(counts[i], d["dists"]))
+                s3, r3_ = impl_one(qt, alt_ds if nm == "read-only" else list(alt_ds))
+                if s3 != "ok" or maxabs(r3_.estimated_var, r1.estimated_var) > 1e-13 * scale:
+                    ctx.violation(sub, SITE_EST, "depends-on-data-representation", "%s %s: data passed as %s arrays %s" % (lab0, d["label"], nm, "raise " + type(r3_).__name__ if s3 != "ok" else "change the estimate by %.3g" % maxabs(r3_.estimated_var, r1.estimated_var)), sc)
+                    break
+            if any(not np.array_equal(x, y) for x, y in zip(d["dists"], split_blocks(np.hstack(d["dists"]), sizes))):
+                ctx.violation(sub, SITE_EST, "mutates-argument", "%s %s: the data arrays were modified by the estimator" % (lab0, d["label"]), sc)
         # (f) result -> object
         try:
             with warnings.catch_warnings():
@@ -538,13 +572,15 @@ def tomo_case(rng, kind, sysname, para, tset, nout=None, perm=False, n_truth=3, 
             case["pflip"] = rng.choice([0.06, 0.15, 0.3])
     if nout is not None:
         case["nout"] = nout
+    if base == "odd":
+        case["odd_povms"] = True
     case["truths"] = truth_specs(rng, kind, sysname, nout, n_truth)
     case["sampled"] = [{"truth": rng.randrange(n_truth), "N": rng.choice([10, 100, 1000]), "seed": rng.randrange(10 ** 6)} for _ in range(n_samp)]
     case["n_adv"], case["n_var"] = n_adv, n_var
     case["consistency"] = consistency
     if perm:
         ns = len(case.get("states", [])) ** SYS[sysname][1] if case.get("states") else 1
-        npv = len(case.get("povms", [])) ** SYS[sysname][1] if case.get("povms") else 1
+        npv = (len(case.get("povms", [])) + (2 if case.get("odd_povms") else 0)) ** SYS[sysname][1] if case.get("povms") else 1
         total = ns if kind == "povmt" else (npv if kind == "qst" else ns * npv)
         p = list(range(total)); rng.shuffle(p)
         case["sched"] = p
@@ -577,6 +613,9 @@ def sub_tomo(ctx):
             cases.append(tomo_case(rng, "qst", "t1", para, "over-dep", perm=True))
             cases.append(tomo_case(rng, "povmt", "t1", para, "complete", nout=3, n_truth=3, n_adv=1, n_var=1, n_samp=1))
             cases.append(tomo_case(rng, "povmt", "t1", para, "over-dep", nout=2, n_truth=2, n_adv=1, n_var=1, n_samp=1))
+            # qubit tester set with 1-, 2- and 4-outcome POVMs (outcome count != dimension, single outcome), also re-ordered
+            cases.append(tomo_case(rng, "qst", "q1", para, "odd", n_truth=2, n_adv=1, n_var=1, n_samp=1))
+            cases.append(tomo_case(rng, "qst", "q1", para, "odd-dep", perm=True, n_truth=2, n_adv=1, n_var=1, n_samp=1))
             # qutrit tester set with a 2-outcome and 3-outcome POVMs (over-complete, unequal outcome counts)
             cases.append(tomo_case(rng, "qst", "t1", para, "mixed", n_truth=2, n_adv=1, n_var=1, n_samp=1))
     if not ctx.quick:
@@ -833,7 +872,7 @@ def gen_synthetic(rng, idx):
     A_blocks, b_blocks, o = [], [], 0
     for s in sizes:
         A_blocks.append([[fstr(t) for t in r] for r in rows[o:o + s]]); b_blocks.append([fstr(t) for t in bvec[o:o + s]]); o += s
-    nseq = rng.randint(1, 3)
+    nseq = rng.choice([0, 1, 1, 2, 2, 3]) if shape != "malformed" else rng.randint(1, 3)      # 0: an empty sequence returns an empty result
     seq, vars_ = [], []
     for _ in range(nseq):
         if rng.random() < 0.5:
@@ -961,7 +1000,7 @@ def chk_history(ctx, case):
         if cst != "ok":
             ctx.violation(sub, SITE_MODEL, "model-branch", "model-as-coded raises code %s on a well-formed job" % cval, jc)
             continue
-        tol = 1e-9 * ms["kappa"]
+        tol = TOL_REL * ms["kappa"]
         xm = [np.array([float(t) for t in x]) for x in cval]
         def off(xlist):
             if xlist is None or len(xlist) != len(xm):
@@ -1022,7 +1061,7 @@ def gen_history(rng, idx, quick):
     if fam == "qst-q1":
         pool = [real("qst", "q1", para, "complete"), real("qst", "q1", para, "complete-dep"), real("qst", "q1", para, "complete-flip"),
                 real("qst", "q1", para, "complete-dep", perm=True), real("qst", "q1", not para, "complete-dep"), real("qst", "q1", para, "over-dep"),
-                real("qst", "q1", para, "over", perm=True)]
+                real("qst", "q1", para, "over", perm=True), real("qst", "q1", para, "odd-dep")]
         inc = {"type": "real", "case": {"kind": "qst", "sys": "q1", "para": para, "seed": rng.randrange(10 ** 9), "tset": "incomplete", "povms": ["x", "y"], "prate": 0}}
         pool.append(inc)
     elif fam == "povmt-q1":
@@ -1080,7 +1119,7 @@ def chk_large(ctx, case):
     if ist != "ok":
         ctx.violation(sub, SITE_EST, "unexpected-raise", "2-qubit tomography raises %s" % type(ires).__name__, case)
         return
-    tol = 1e-9 * max(1.0, kappa)
+    tol = 1e-10 * max(1.0, kappa)      # float estimate of kappa, up to 512 variables
     for i, (ds, t) in enumerate(zip(seq, tv)):
         x = np.asarray(ires.estimated_var_sequence[i], dtype=float)
         if i in (0, len(seq) - 1):      # the twin entry point calc_estimate on exact and on adversarial data
